@@ -188,7 +188,7 @@ func c20Check(c c20Case) (*eng.Fail, string) {
 
 func init() {
 	checks["C20"] = eng.Check{
-		Rule:        "ELF64-LE files written by the harness: type in {NONE, REL, EXEC, DYN, CORE} x <=2 (thorough 3) user sections (type PROGBITS/NOBITS/NOTE x flags {0, ALLOC, ALLOC|EXEC} x addr {0, 0x1000, 0x1004, 0x1008} x size {0,4,8}) x <=2 program headers (type LOAD/NOTE x vaddr {0x1000,0x1004,0x1008} x filesz {0,4,8} x memsz {0,4,8,12} incl. memsz<filesz; plus LOAD headers that claim 4 bytes or 64 KiB more file bytes than were placed for them, i.e. a file extent reaching into the following file content or past the end of the file) — all combinations incl. overlapping and adjacent ones — through elf.NewParser/MachineCode/Memory/Entrypoint/Address. Oracle from the generator's description: REL/CORE/NONE and any overlap must be rejected; whatever loads must equal the description (code = qualifying sections as sorted blocks, adjacent ones not merged; memory = file bytes then zeros; Address(a) for every a in 0xff8..0x1020 = tail of its block or nil); plus a code section and a segment of 4 and 8 bytes ending exactly at 2^64 with lookups over the last 12 addresses. Non-trivial = file for which both images load.",
+		Rule:        "ELF64-LE files written by the harness: type in {NONE, REL, EXEC, DYN, CORE} x <=2 (thorough 3) user sections (type PROGBITS/NOBITS/NOTE x flags {0, ALLOC, ALLOC|EXEC} x addr {0, 0x1000, 0x1004, 0x1008} x size {0,4,8}) x <=2 (thorough 3) program headers (type LOAD/NOTE x vaddr {0x1000,0x1004,0x1008} x filesz {0,4,8} x memsz {0,4,8,12} incl. memsz<filesz; plus LOAD headers that claim 4 bytes or 64 KiB more file bytes than were placed for them, i.e. a file extent reaching into the following file content or past the end of the file) — all combinations incl. overlapping and adjacent ones — through elf.NewParser/MachineCode/Memory/Entrypoint/Address. Oracle from the generator's description: REL/CORE/NONE and any overlap must be rejected; whatever loads must equal the description (code = qualifying sections as sorted blocks, adjacent ones not merged; memory = file bytes then zeros; Address(a) for every a in 0xff8..0x1020 = tail of its block or nil); plus a code section and a segment of 4 and 8 bytes ending exactly at 2^64 with lookups over the last 12 addresses. Non-trivial = file for which both images load.",
 		Assumptions: []string{"errors are always acceptable outcomes (the property allows 'reports an error'); crashes are not", "files are well-formed ELF64 containers (corruption is C26's domain)"},
 		Run: func(r *eng.Run) {
 			dir, err := os.MkdirTemp("", "vc20")
@@ -328,6 +328,23 @@ func init() {
 					for j := range q {
 						for k := range secs {
 							do(elfgen.File{Type: elfgen.ET_EXEC, Entry: 0x1000, Sections: []elfgen.Section{q[i], q[j], secs[k]}, Progs: fixedProgs[0]})
+							gc()
+						}
+					}
+				})
+			}
+			if !r.Quick() {
+				// (4) triples of LOAD program headers (two qualifying-ish ones and any third)
+				var lp []elfgen.Prog
+				for _, p := range progs {
+					if p.Type == elfgen.PT_LOAD && p.Memsz > 0 && p.Claim < 1<<16 {
+						lp = append(lp, p)
+					}
+				}
+				r.Par(len(lp), func(i int) {
+					for j := range lp {
+						for k := range progs {
+							do(elfgen.File{Type: elfgen.ET_DYN, Entry: 0x1000, Sections: fixedSecs[0], Progs: []elfgen.Prog{lp[i], lp[j], progs[k]}})
 							gc()
 						}
 					}
